@@ -45,6 +45,11 @@ def cases(tier, seed):
     defs += [space.assumed(d) for d in space.family_cse("quick") if any(t in d["name"] for t in ("chain4", "ctl-only", "nest3b"))]
     # block-size sweep (n = 1..8 statements per model block, rows with many temporaries of their own)
     defs += space.family_sizes(tier)
+    # the other Config fields must not change what the compiled model computes: a few programs compiled with every other field
+    # away from its default (the optional extra validation accepts these models)
+    other = {"extra_validation": True, "innovation_filtering": None, "max_dt_sec": 0.05}
+    for d_ in [b[13], b[22], b[26], b[17]]:
+        yield {"def": dict(d_, name=d_["name"] + "-cfg"), "per_symbol": 2, "seed": seed, "dts": [0.125, -0.25], "config": other}
     # intermediates that overflow to inf while the value stays defined (1/(1 + exp(896)) = 0)
     defs += space.family_extreme()
     defs += space.family_piecewise()  # saturation constructs (Piecewise with comparisons)
@@ -129,8 +134,12 @@ def eval_case(case):
     models = {}
     for cse in (True, False):
         try:
-            models[cse] = pyimpl.py_model(d, {"cse": cse})
+            models[cse] = pyimpl.py_model(d, dict(case.get("config") or {}, cse=cse))
         except Exception as e:
+            if (case.get("config") or {}).get("extra_validation"):
+                # refusing a model is what the optional extra validation is for (and it is experimental): not C01's business
+                return {"n": 0, "fails": [], "outcomes": ["extra-validation-refused"], "sig": d["name"], "nontrivial": False,
+                        "sample": {"program": d["name"], "outcome": f"refused under extra_validation=True: {type(e).__name__}"}}
             fails.append({"key": f"compile-refused:{type(e).__name__}", "what": f"accepted definition {d['name']} "
                           f"refused by python.compile (cse={cse}): {type(e).__name__}: {str(e)[:200]}"})
     if fails:
